@@ -696,7 +696,7 @@ impl Prop for C11 {
     }
     fn cases(&self, tier: Tier) -> u64 {
         match tier {
-            Tier::Quick => 100_000,
+            Tier::Quick => 400_000,
             Tier::Thorough => 4_000_000,
         }
     }
